@@ -118,10 +118,12 @@ def subterms(t):
                     yield y
 
 
-def show(t):
+def show(t, _depth=0):
     if not isinstance(t, tuple) or not t:
         return repr(t)
     k = t[0]
+    if k == 'call' and _depth >= 2:
+        return '%s(..)#%s' % (show(t[1], _depth + 1), t[4])
     if k == 'sym':
         return t[1]
     if k == 'const':
@@ -129,9 +131,9 @@ def show(t):
     if k == 'attr':
         return '%s.%s' % (show(t[1]), t[2])
     if k == 'call':
-        a = [show(x) for x in t[2]] + ['%s=%s' % (n, show(v))
-                                       for n, v in t[3]]
-        return '%s(%s)' % (show(t[1]), ', '.join(a))
+        a = [show(x, _depth + 1) for x in t[2]] + [
+            '%s=%s' % (n, show(v, _depth + 1)) for n, v in t[3]]
+        return '%s(%s)' % (show(t[1], _depth + 1), ', '.join(a))
     if k == 'obj':
         return '<%s#%s>' % (t[2], t[1])
     if k in ('tuple', 'list', 'set'):
@@ -233,7 +235,7 @@ class Ev(object):
 
 class St(object):
     __slots__ = ('frames', 'heap', 'conds', 'events', 'held', 'loops',
-                 'outcome', 'try_depth', 'notes')
+                 'outcome', 'try_depth', 'notes', 'cond_held')
 
     def __init__(self):
         self.frames = [{}]
@@ -245,6 +247,7 @@ class St(object):
         self.outcome = None
         self.try_depth = 0
         self.notes = []
+        self.cond_held = []     # locks held when each decision was taken
 
     @property
     def env(self):
@@ -261,6 +264,7 @@ class St(object):
         s.outcome = self.outcome
         s.try_depth = self.try_depth
         s.notes = list(self.notes)
+        s.cond_held = list(self.cond_held)
         return s
 
 
@@ -274,6 +278,7 @@ class Path(object):
         self.env = st.frames[0]
         self.heap = st.heap
         self.notes = st.notes
+        self.cond_held = st.cond_held
 
     # outcome helpers ------------------------------------------------------
     @property
@@ -925,6 +930,8 @@ class PathSum(object):
         s2 = st.fork()
         st.conds.append((a, True, node))
         s2.conds.append((a, False, node))
+        st.cond_held.append(tuple(st.held))
+        s2.cond_held.append(tuple(s2.held))
         return [(st, pol), (s2, not pol)]
 
     # -- expressions ---------------------------------------------------------
@@ -2107,6 +2114,7 @@ class PathSum(object):
             e = s.fork()
             e.events = list(s.events) + [x for x in b.events]
             e.conds = list(b.conds)
+            e.cond_held = list(b.cond_held)
             e.outcome = b.outcome
             e.heap = b.heap
             e.frames = b.frames
@@ -2116,6 +2124,7 @@ class PathSum(object):
         for b in breaks:
             e = s.fork()
             e.conds = list(b.conds)
+            e.cond_held = list(b.cond_held)
             for w in sorted(written):
                 if w in b.env:
                     e.env[w] = b.env[w]
